@@ -1,3 +1,5 @@
+//go:build verif
+
 package main
 
 // Component `linerec`: goldmark's line-level recognisers (parser.isThematicBreak, parseListItem,
